@@ -16,7 +16,7 @@ import edzed
 
 from ..explore import Acc, explore
 from ..harness import Sim, TICK, stop
-from ..probes import Probe
+from ..probes import Probe, lblock_class
 
 PROPERTY = 'C12'
 LEVEL = 'model_checking'
@@ -75,6 +75,11 @@ def configs(tier):
                                         pass
                                     out.append(dict(mode=mode, guard=guard, sd=sd, times=list(times),
                                                     durs=list(durs), fail=fail, stop=st))
+    # a put that reaches the block after its stop() (sent by another block's asynchronous
+    # clean-up): whatever happens to it, the stop_data run stays the last one
+    for c in [c for c in out if len(c['times']) <= 2 and c['sd'] and c['stop'] is not None and c['fail'] is None]:
+        for late in (0, 1, 2):
+            out.append(dict(c, late=late))
     # event data shapes: no data at all, falsy items only, arguments picked by f_args / f_kwargs
     for mode in ('cancel', 'wait', 'start', 'c', 'w', 's'):
         for shape in SHAPES:
@@ -207,7 +212,7 @@ def one_exec(cfg, chooser):
         async def coro(value):
             blk = holder['blk']
             clog.append((now(), 'start', value, blk.output))
-            d = 1 if value == 'STOP' else durs[value]
+            d = 1 if value in ('STOP', 'LATE') else durs[value]
             try:
                 await asyncio.sleep(d)
             except asyncio.CancelledError:
@@ -229,6 +234,11 @@ def one_exec(cfg, chooser):
             on_cancel=edzed.Event(probe, 'cancel'), on_output=edzed.Event(probe, 'output'), **kw)
         holder['blk'] = blk
         ext = edzed.ExtEvent(blk, 'put')
+        if cfg.get('late') is not None:
+            lblock_class(astop=True)('helper', log=[], cfg={
+                'init_regular': ('set', 0),
+                'astop': (cfg['late'], ('call', lambda b: blk.event(
+                    'put', value='LATE', idx='LATE', source='late')))}, stop_timeout=1000)
 
         async def driver():
             task = asyncio.create_task(sim.circuit.run_forever())
@@ -294,7 +304,10 @@ def judge(cfg, obs):
             errs.append(('result-without-put-data', f"{e} event data {d!r}"))
             continue
         v = put['value']
-        if v != 'STOP' and (put.get('idx') != v or put.get('source') != '_ext_'):
+        if v == 'LATE':
+            if put != {'value': 'LATE', 'idx': 'LATE', 'source': 'late'}:
+                errs.append(('result-put-data-altered', f"{e}: put={put!r}"))
+        elif v != 'STOP' and (put.get('idx') != v or put.get('source') != '_ext_'):
             errs.append(('result-put-data-altered', f"{e}: put={put!r}"))
         if v == 'STOP' and put.get('extra') != 'sd':
             errs.append(('result-put-data-altered', f"{e}: put={put!r}"))
@@ -310,8 +323,10 @@ def judge(cfg, obs):
         if len(r) != 1:
             errs.append(('not-exactly-one-result', f"put {v!r}: results {r!r} (all: {results!r})"))
     for v in results:
-        if v not in vals:
+        if v not in vals and v != 'LATE':
             errs.append(('result-for-unknown-put', f"{v!r}"))
+    if len(results.get('LATE', [])) > 1:
+        errs.append(('not-exactly-one-result', f"late put: results {results['LATE']!r}"))
     if errs:
         return errs
     # --- runs
@@ -326,6 +341,18 @@ def judge(cfg, obs):
             errs.append(('run-lifecycle', f"{v!r}: {r!r}"))
     if errs:
         return errs
+    # the put that arrived after stop(): the statement promises nothing about it, except that
+    # the stop_data run is the last one
+    late_run = runs.pop('LATE', None)
+    if sd and 'end' not in runs.get('STOP', {}):
+        errs.append(('stop-data-not-processed',
+                     f"the stop_data run did not take place or did not complete: {runs.get('STOP')!r}; "
+                     f"results {results!r}"))
+    if late_run is not None and 'STOP' in runs and late_run['start'] > runs['STOP']['start']:
+        errs.append(('stop-data-not-last', f"a put that arrived after stop() ran {late_run!r} after the "
+                     f"stop_data run {runs['STOP']!r}"))
+    if late_run is not None:
+        return errs     # (time and order predictions below do not cover this extra run)
     for v in vals:
         (t, e), = results[v]
         r = runs.get(v)
